@@ -129,7 +129,7 @@ Definition norm_call (c : call) : call :=
 Definition no_nl (l : list Z) : Prop := Forall (fun c => c <> 10 /\ c <> 13 /\ c <> 0) l.
 Inductive G_filler : list Z -> Prop :=
 | F_nil : G_filler []
-| F_comment body nl w r : no_nl body -> (nl = [10] \/ nl = [13] \/ nl = [13; 10]) -> wsl w -> G_filler r ->
+| F_comment body nl w r : no_nl body -> (nl = [10] \/ (nl = [13] /\ hd 0 (w ++ r) <> 10) \/ nl = [13; 10]) -> wsl w -> G_filler r ->
     G_filler ([37] ++ body ++ nl ++ w ++ r)
 | F_dot t r : G_tok t_dot t -> G_filler r -> G_filler (t ++ r).
 
@@ -137,3 +137,30 @@ Inductive G_filler : list Z -> Prop :=
 Inductive G_stmts : list call -> list Z -> Prop :=
 | S_nil f : G_filler f -> G_stmts [] f
 | S_cons c cs f t r : G_filler f -> G_stmt c t -> G_stmts cs r -> G_stmts (c :: cs) (f ++ t ++ r).
+
+(* steps: in incremental programs separated by "#step" "." ; the text after a "#step." must not be empty (a trailing
+   "#step." at the end of the input opens no step) *)
+Fixpoint G_steps (steps : list (list call)) (txt : list Z) : Prop :=
+  match steps with
+  | [] => False
+  | cs :: more =>
+      match more with
+      | [] => G_stmts cs txt
+      | _ => exists t1 ts td t2, G_stmts cs t1 /\ G_tok t_step ts /\ G_tok t_dot td /\ G_steps more t2 /\ t2 <> [] /\
+                                  txt = t1 ++ ts ++ td ++ t2
+      end
+  end.
+
+(* comment lines before the first statement *)
+Inductive G_comments : list Z -> Prop :=
+| C_nil : G_comments []
+| C_cons body nl w r : no_nl body -> (nl = [10] \/ (nl = [13] /\ hd 0 (w ++ r) <> 10) \/ nl = [13; 10]) -> wsl w -> G_comments r ->
+    G_comments ([37] ++ body ++ nl ++ w ++ r).
+
+Definition G_program (inc : bool) (steps : list (list call)) (txt : list Z) : Prop :=
+  exists w0 tc ti ts, wsl w0 /\ G_comments tc /\ G_steps steps ts /\ txt = w0 ++ tc ++ ti ++ ts /\
+    (if inc then exists t1 t2, G_tok t_incremental t1 /\ G_tok t_dot t2 /\ ti = t1 ++ t2
+     else ti = [] /\ length steps = 1%nat).
+
+Definition program_calls (inc : bool) (steps : list (list call)) : list call :=
+  CInit inc :: flat_map (fun cs => CBegin :: map norm_call cs ++ [CEnd]) steps.
